@@ -175,11 +175,15 @@ func init() {
 					rs = append(rs, HRun{Pkg: "./dig", Fn: "ZZ_C11_Log", Params: []int{layout, t, popIdx(layout) + 1, 1}})
 				}
 			}
+			for m := 0; m < 3; m++ {
+				rs = append(rs, HRun{Pkg: "./dig", Fn: "ZZ_C11_Insert", Params: []int{m}})
+			}
 			return rs
 		},
 		Assumptions: []string{
 			"event layouts: 3 inputs, every combination of indexed/selected (64 layouts, case-split) and leaf types from {uint256,address,bool,bytes32,int256,uint8}; topics, log data and every block/tx/log field are solver-quantified",
 			"decimal rendering (uint256.Dec / negInt.Value) is outside: integer cells are compared as 256-bit limbs before rendering",
+			"Integration.Insert is run over blocks with two transactions / two trace actions / two logs and the rows are read when COPY drains them (values held by reference are observed when stored)",
 			"the path JSON -> client is covered by C07/C14, COPY -> stored value (pgx binary encoding, Postgres) is outside",
 		},
 		Bounds: map[string]string{
@@ -260,6 +264,13 @@ func init() {
 					}
 				}
 			}
+			for op2 := 0; op2 < 4; op2++ {
+				for agg := 0; agg < 4; agg++ {
+					for na := 0; na <= 2; na++ {
+						rs = append(rs, HRun{Pkg: "./dig", Fn: "ZZ_C12_Ref", Params: []int{op2, agg, na}})
+					}
+				}
+			}
 			for op1 := -1; op1 < 4; op1++ {
 				for op2 := 0; op2 < 4; op2++ {
 					for agg := 0; agg < 4; agg++ {
@@ -274,7 +285,7 @@ func init() {
 		Assumptions: []string{
 			"per-filter semantics: field values and byte-string arguments are solver-quantified (hex argument text is built from symbolic bytes); decimal arguments of integer filters are 5 (uint64) / 4 (uint256) boundary constants, the field value is a free 64/256-bit value; string arguments come from a 4-word vocabulary, the field is a symbolic string",
 			"fold and pushdown: filter arguments are concrete constants, the log's topics and address are solver-quantified; eth_getLogs is assumed to return exactly the logs whose address is in the address list (if non-empty) and whose topic0 is in topics[0] (documented JSON-RPC semantics)",
-			"reference filters (filter_ref) are not covered by this check (they need the Postgres model; see C05)",
+			"reference filters (filter_ref): the referenced table's content is a symbolic membership answer of the lookup (ZZ_C12_Ref); that the lookup runs on the inserting transaction is not checked here",
 		},
 		Bounds: map[string]string{
 			"quick":    "operators x {bytes shapes (field len, #args, arg len) in 9 shapes, uint64 x 5 args x 2 kinds, uint256 x 4 args, strings of 0/4/6/12 bytes x 0..3 args}; fold: op1 in {none,contains,!contains,eq,ne} on an indexed bytes32 input x op2 on log_addr x 4 aggregations x 0..2 address args",
@@ -454,17 +465,24 @@ func init() {
 	})
 	register(&PropSpec{
 		ID:   "C05",
-		Pkgs: []string{"./shovel"},
+		Pkgs: []string{"./shovel", "./shovel/config"},
 		Runs: func(tier string) []HRun {
 			var rs []HRun
 			for _, p := range [][]int{{1, 1, 1, 0, 2}, {1, 1, 0, 0, 2}, {1, 2, 1, 1, 2}, {1, 2, 1, 0, 2}, {1, 2, 0, 1, 2}, {1, 2, 0, 0, 2}, {0, 2, 2, 1, 2}, {1, 2, 2, 2, 1}} {
 				rs = append(rs, HRun{Pkg: "./shovel", Fn: "ZZ_C05_Deps", Params: p})
 			}
+			for rb := 0; rb <= 4; rb++ {
+				for rc := 0; rc <= 4; rc++ {
+					for o := 0; o <= 2; o++ {
+						rs = append(rs, HRun{Pkg: "./shovel/config", Fn: "ZZ_C05_Refs", Params: []int{rb, rc, o}})
+					}
+				}
+			}
 			return rs
 		},
 		Assumptions: append([]string{
 			"the CTE of latestDependency is modelled by hand from its SQL (per referenced integration of the same source its newest cursor row; of those the smallest; plus the number of referenced integrations that have rows); a same-named integration on another source is present and must not count",
-			"that config.ValidateFilterRefs lists every referenced integration in Dependencies, and that reference lookups run on the inserting transaction, are not covered by this harness",
+			"config.ValidateFix/ValidateFilterRefs: for two integrations referencing a/x through event inputs or block fields in 25 arrangements x 3 declaration orders (case-split), every referenced integration is listed in Dependencies and the referenced table is taken from the referenced integration; that reference lookups run on the inserting transaction is not covered",
 		}, convAssume...),
 		Bounds:  map[string]string{"quick": "1-2 referenced integrations with 0..2 cursor rows each (0 = not started), own position present or not", "thorough": "same"},
 		Outside: []string{"dependencies declared in nested tuple components"},
@@ -503,5 +521,45 @@ func init() {
 		},
 		Bounds:  map[string]string{"quick": "all pairs of the 28 field names with and without an event; 28 x 4 x 2 triples", "thorough": "28 x 9 x 2 triples"},
 		Outside: []string{"blocks with several transactions/logs (attachment of several items is C07)", "field sets larger than three"},
+	})
+}
+
+func init() {
+	register(&PropSpec{
+		ID:   "C08",
+		Pkgs: []string{"./jrpc2"},
+		Runs: func(tier string) []HRun {
+			var rs []HRun
+			ns, mrs := []int{2, 3}, []int{0, 1, 2}
+			if tier == "thorough" {
+				ns, mrs = []int{2, 3, 4, 5}, []int{0, 1, 2, 3}
+			}
+			for kind := 0; kind <= 3; kind++ {
+				for _, n := range ns {
+					for _, m := range mrs {
+						for fl := 0; fl <= 1; fl++ {
+							if fl == 1 && n > 3 {
+								continue
+							}
+							rs = append(rs, HRun{Pkg: "./jrpc2", Fn: "ZZ_C08_Seq", Params: []int{kind, n, m, fl}, MaxPaths: 200000})
+						}
+					}
+				}
+			}
+			rs = append(rs, HRun{Pkg: "./jrpc2", Fn: "ZZ_C08_Prune", Params: []int{7}}, HRun{Pkg: "./jrpc2", Fn: "ZZ_C08_Prune", Params: []int{6}})
+			for _, m := range mrs {
+				for _, n := range ns {
+					rs = append(rs, HRun{Pkg: "./jrpc2", Fn: "ZZ_C08_Head", Params: []int{n + 1, m}, MaxPaths: 200000})
+				}
+			}
+			return rs
+		},
+		Assumptions: []string{
+			"sequential request sequences only: every order of n requests over two ranges and two callers is enumerated (case-split), node failures are a solver Boolean per node call; truly concurrent mixes (lookup and nreads++ in different critical sections) are NOT explored here - see C18's note",
+			"the chain is unchanging and honest (harness/jrpc2/node.go): one block per range with one transaction carrying two logs that match different callers' filters; eth_getLogs returns the logs matching the caller's filter",
+			"head cache: announcements (update), poller errors and Latest calls in every order of length n with symbolic numbers/hashes/floors; the poller goroutine itself is not scheduled (its calls are the announcements)",
+		},
+		Bounds:  map[string]string{"quick": "4 plans x n in {2,3} requests x maxreads in {0,1,2} x with/without node failures; prune with 7 ranges; head ops n+1 in {3,4}", "thorough": "n up to 5, maxreads up to 3"},
+		Outside: []string{"concurrent schedules of the cache (sequentialised)", "websocket/HTTP poller I/O"},
 	})
 }
